@@ -11,6 +11,7 @@ import OmplModel.Proofs.PathOpsSchedule
 import OmplModel.Proofs.PathOpsBetterGoal
 import OmplModel.Proofs.PathOpsScheduleBridge
 import OmplModel.Proofs.PathOpsPerturb
+import OmplModel.Proofs.PathOpsShortcutOrd
 /-!
 # C17 — path post-processing preserves endpoints, validity and never worsens cost
 
@@ -673,6 +674,25 @@ theorem pshort_whole_preserves {E : PsEnv σ} {cut : σ → σ → σ → Prop} 
     {u : Nat → Float} {ms me : Nat} {rr snap : Float} {path out : List σ} {r : Bool}
     (h : partialShortcutPath E u ms me rr snap path = some (out, r)) :
     Preserves E.cm cut isGoal path out := partialShortcut_preserves isGoal hsym hcut h
+
+/-- **F170 (open finding)**: the tree's `partialShortcutPath` validates its two samples in SAMPLING order and
+splices them in PATH order.  Read direction-sensitively ("validated (a, b)" = `checkMotion(a, b)`, not
+`(b, a)`), "only validated motions" FAILS: a step of the tree's kind whose spliced-in motion was validated
+only in reverse.  `pshort_whole_preserves` above is therefore the `_partial` statement (it needs `hsym`). -/
+theorem pshort_only_validated_motions_directed_fails :
+    ∃ (cm : Nat → Nat → Bool) (st out : List Nat),
+      PsCutStep cm (fun _ _ _ => False) st out ∧
+      ∃ p ∈ adj out, p ∉ adj st ∧ cm p.1 p.2 = false ∧ cm p.2 p.1 = true :=
+  pshort_sampling_order_validation_fails
+
+/-- with the repair proposed in notes/C17-fix-F170.diff (`partialShortcutPathOrd`: order the two points, THEN
+`checkMotion`) the whole routine keeps first / last and leaves only derived motions for EVERY `checkMotion`,
+symmetric or not — no `hsym` -/
+theorem pshort_ordered_whole_preserves {E : PsEnv σ} {cut : σ → σ → σ → Prop} (isGoal : σ → Prop)
+    (hcut : ∀ a b t, cut a b (E.interp a b t))
+    {u : Nat → Float} {ms me : Nat} {rr snap : Float} {path out : List σ} {r : Bool}
+    (h : partialShortcutPathOrd E u ms me rr snap path = some (out, r)) :
+    Preserves E.cm cut isGoal path out := partialShortcutOrd_preserves isGoal hcut h
 
 /-- `valid = false` only if some `checkAndRepair` call answered `result = false` -/
 theorem simplify_schedule_invalid_only_after_failed_repair (R : Routines σ) (ptc : Nat → Bool) (atLeastOnce : Bool)
